@@ -62,8 +62,8 @@ class ClohessyWiltshire(AnalyticalPropagator):
             name (str) : name of the reference frame
         """
 
-        frame = orbit.as_frame(name, orientation=orientation)
-        return cls(orbit.infos.kep.a, frame="Hill")
+        orbit.as_frame(name, orientation=orientation)
+        return cls(orbit.infos.kep.a, frame=HillFrame(orientation))
 
     @property
     def n(self):
